@@ -88,10 +88,6 @@ Fixpoint has_escaped_star (t : str) : bool :=
 
 (* ---- the IR model against d2ir.Compile ---- *)
 
-(* the instance the implementation runs: strings.EqualFold on (ASCII) names, the pinned matchPattern *)
-Definition keq_go (a b : str) : bool := str_eqb (go_lower a) (go_lower b).
-Definition mt_go (n : str) (p : list str) : bool := match match_pattern n p with Ok b => b | Crash => false end.
-
 Definition fproj := (path * option str)%type.
 Definition fproj_eqb (a b : fproj) : bool := path_eqb (fst a) (fst b) && opt_eqb str_eqb (snd a) (snd b).
 
